@@ -47,7 +47,7 @@ def fail (prop sig reason : String) : String := s!"FAIL[{prop}|{sig}] {reason}"
 /-- the connection number of the live (open) object of client id `cid` -/
 def liveConnOf (s : Server) (cid : Str) : Option Nat :=
   match assocGet s.clients cid with
-  | some i => let c := getObj s i; if c.isOpen && !c.inline then some c.conn else none
+  | some i => let c := getObj s i; if c.isOpen && !c.inline && !c.peerGone then some c.conn else none
   | none => none
 
 def objOfConn (s : Server) (conn : Nat) : Option Client :=
@@ -98,7 +98,7 @@ def publishVerdicts (pre : Server) (io : ImplOut) (origin topic payload : Str) (
   let missing := if !accepted || blockedByHook.isSome then [] else
     pre.clients.flatMap fun (cid, i) =>
       let c := getObj pre i
-      if !c.isOpen || c.inline || !entitledNonShared cid then [] else
+      if !c.isOpen || c.inline || c.peerGone || !entitledNonShared cid then [] else
       if recv.any (·.1 == c.conn) then [] else
       let subQ := (ents.filter fun (x, _, g) => x == cid && g.isNone).foldl (fun m (_, sub, _) => max m sub.qos) 0
       let q := min (min pubQos subQ) pre.caps.maximumQos
@@ -146,7 +146,10 @@ def brokerVerdicts (pre : Server) (ws : List String) (core flags : String) : Lis
     | none => []
     | some c => pks.flatMap fun p =>
       match (fieldOf p "ta=").bind (·.toNat?) with
-      | some a => if p.startsWith "PUB:" && a > c.tam then [fail "C24" "-" s!"c{n}: alias {a} above the client's Topic Alias Maximum {c.tam}"] else []
+      | some a => if p.startsWith "PUB:" && a > c.tam then
+          -- a resumed session's stored packets are resent verbatim, alias included (F24b)
+          [fail "C24" (if ws.head? == some "bk.release" || ws.head? == some "bk.conn" then "F24b" else "-")
+            s!"c{n}: alias {a} above the client's Topic Alias Maximum {c.tam}"] else []
       | none => []
   let perOp : List String := match ws with
     | "bk.conn" :: n :: ver :: clean :: cid :: kv =>
@@ -291,6 +294,41 @@ def brokerVerdicts (pre : Server) (ws : List String) (core flags : String) : Lis
               publishVerdicts pre io c.id c.will.topic c.will.payload (min c.will.qos pre.caps.maximumQos) true none [n]
             else []
           c16 ++ pv
+    | ["bk.release", n] =>
+      match n.toNat? with
+      | none => []
+      | some n =>
+        match pre.pending.find? (·.conn == n) with
+        | none => []
+        | some pd =>
+          let pks := (io.conns.find? (·.1 == n)).map (·.2) |>.getD []
+          let isConnack (p : String) := p.startsWith "CONNACK" || p.startsWith "!bad(connack-return-code"
+          -- (a parked handler whose object was taken over meanwhile was closed by that takeover)
+          let c13a := match pks with
+            | [] => if io.closed.contains n || (getObj pre pd.obj).stopped then [] else [fail "C13" "-" "no CONNACK and connection left open"]
+            | p :: _ => if isConnack p then [] else [fail "C13" "-" s!"first packet on c{n} is not CONNACK: {p}"]
+          let success := pks.any fun p => p.startsWith "CONNACK" && fieldOf p "rc" == some "00"
+          -- C35: the limit counts established connections; this one was admitted by a check made
+          -- before the connections that filled the limit were counted (check and increment are separate)
+          let live := (pre.clients.filter fun (_, i) => (getObj pre i).isOpen && !(getObj pre i).inline).length
+          let c35 := if success && pd.stage == 1 && live ≥ pre.caps.maximumClients then
+              [fail "C35" "F35" s!"connection established although {live} clients are connected and the maximum is {pre.caps.maximumClients}"] else []
+          c13a ++ c35
+    | ["bk.tick", "wills", _] =>
+      -- C16: a delayed will must not be published once the session has been resumed (Clean Start 0)
+      io.events.flatMap fun e =>
+        if e.startsWith "will(" then
+          match parseHex ((e.drop 5).dropEnd 1).toString with
+          | some cid =>
+            match assocGet pre.clients cid with
+            | some i =>
+              let c := getObj pre i
+              if c.isOpen && !c.clean && !c.inline then
+                [fail "C16" "F16a" s!"the delayed will of {toHex cid} was published although its session had been resumed by a new connection before the delay elapsed"]
+              else []
+            | none => []
+          | none => []
+        else []
     | ["bk.ipub", t, p, _r, q] =>
       match parseHex t, parseHex p, q.toNat? with
       | some t, some p, some q => if p.isEmpty then [] else publishVerdicts pre io inlineID t p q true (assocGet pre.pubHook t)
@@ -302,14 +340,20 @@ def brokerVerdicts (pre : Server) (ws : List String) (core flags : String) : Lis
       let act := ((flags.splitOn "V[actual ").getD 1 "").replace "]" ""
       -- a handler parked in the middle of its teardown (bk.drophold) is not a quiescent state: its
       -- connection is gone but its deferred counter decrement has not run yet
-      (if pre.parked.isEmpty then ["connected", "subs", "retained", "inflight"] else ["subs", "retained", "inflight"]).flatMap fun k =>
+      (if pre.parked.isEmpty && pre.parkedEarly.isEmpty && pre.pending.isEmpty then ["connected", "subs", "retained", "inflight"]
+       else ["subs", "retained", "inflight"]).flatMap fun k =>
         match num core k, num act k with
         | some r, some a =>
           (if r < 0 then [fail "C38" "-" s!"counter {k} is negative ({r})"] else []) ++
           (if r != a then [fail "C38" "-" s!"counter {k} reports {r}, actual {a}"] else [])
         | _, _ => []
     | _ => []
-  c23 ++ afterDisc ++ c24 ++ aliasBound ++ perOp
+  let early := if ws.head? == some "bk.release" || ws.head? == some "bk.connhold" then [] else
+    io.conns.flatMap fun (n, pks) =>
+      if pre.pending.any (·.conn == n) && !pks.isEmpty then
+        [fail "C13" "F13" s!"c{n} was written {pks.length} packet(s) before its CONNACK: {pks.headD ""}"]
+      else []
+  c23 ++ afterDisc ++ c24 ++ aliasBound ++ early ++ perOp
 
 /-- C12: per (receiver session, publisher, topic, delivered QoS) the FIRST transmissions must arrive in
     publish order. Works on the real broker's output only: payloads are unique per publish op, the
